@@ -780,10 +780,32 @@ pub struct CWorld {
     last_msg: std::cell::Cell<(u64, u64)>,
 }
 
+/// salts s1.. are used with the plain child init code, t1.. with the storing one
 fn cw_salt(name: &str) -> [u8; 32] {
     let mut s = [0u8; 32];
-    s[31] = name.trim_start_matches('s').parse::<u8>().unwrap_or(77);
+    s[31] = match name.strip_prefix('t') {
+        Some(n) => 100 + n.parse::<u8>().unwrap_or(55),
+        None => name.trim_start_matches('s').parse::<u8>().unwrap_or(77),
+    };
     s
+}
+fn cw_salt_name(s: &[u8; 32]) -> String {
+    if s[31] >= 100 { format!("t{}", s[31] - 100) } else { format!("s{}", s[31]) }
+}
+/// child init code: "plain" = loader(U code 9); "store" = SSTORE(0,3); TSTORE(1,2); then the loader
+pub fn child_init(kind: &str) -> Vec<u8> {
+    let rt = u_runtime(CHILD_CID);
+    if kind != "store" {
+        return loader(&rt);
+    }
+    let mut a = Asm::new();
+    a.pushb(&[3]).op(op::PUSH0).op(op::SSTORE).pushb(&[2]).pushb(&[1]).op(op::TSTORE);
+    a.pushb(&(rt.len() as u16).to_be_bytes()).op(op::DUP1).pushb(&[19]).op(op::PUSH0);
+    a.op(op::CODECOPY).op(op::PUSH0).op(op::RETURN);
+    let mut c = a.assemble();
+    assert_eq!(c.len(), 19);
+    c.extend_from_slice(&rt);
+    c
 }
 
 impl CWorld {
@@ -825,7 +847,11 @@ impl CWorld {
     pub fn eth_of(&self, n: &Value) -> Eth {
         let tag = n[0].as_str().unwrap();
         let e = match tag {
-            "c2" => create2_address(&self.eth_of(&n[1]), &cw_salt(n[2].as_str().unwrap()), &u_initcode(CHILD_CID)),
+            "c2" => {
+                let salt = n[2].as_str().unwrap();
+                let init = child_init(if salt.starts_with('t') { "store" } else { "plain" });
+                create2_address(&self.eth_of(&n[1]), &cw_salt(salt), &init)
+            }
             "c1" => create_address(&self.eth_of(&n[1]), n[2].as_u64().unwrap()),
             _ => {
                 let names = self.names.borrow();
@@ -858,11 +884,11 @@ impl CWorld {
                 "destroy" => {
                     Cmd::Destroy(if o["ben"][0] == "caller" { [0u8; 20] } else { self.eth_of(&o["ben"]) })
                 }
-                "create" => Cmd::Create { value: b(&o["value"]), init: u_initcode(CHILD_CID) },
+                "create" => Cmd::Create { value: b(&o["value"]), init: child_init(o["init"].as_str().unwrap_or("plain")) },
                 "create2" => Cmd::Create2 {
                     value: b(&o["value"]),
                     salt: cw_salt(o["salt"].as_str().unwrap()),
-                    init: u_initcode(CHILD_CID),
+                    init: child_init(o["init"].as_str().unwrap_or("plain")),
                 },
                 "call" => Cmd::Call {
                     kind: match o["kind"].as_str().unwrap() {
@@ -966,7 +992,7 @@ impl CWorld {
                     json!(["c1", dn, c.nonce])
                 } else {
                     let c: fil_actor_eam::Create2Params = p.deserialize().unwrap();
-                    json!(["c2", dn, format!("s{}", c.salt[31])])
+                    json!(["c2", dn, cw_salt_name(&c.salt)])
                 };
                 self.names.borrow_mut().entry(r.eth_address.0).or_insert(n);
             }
@@ -1099,8 +1125,14 @@ fn random_script(rng: &mut crate::util::Rng, depth: u32, cons: &[Value], recv: &
                 ops.push(json!({"op": "call", "kind": kind, "to": rng.pick(cons).clone(), "value": value, "prog": sub}));
                 json!({"op": if rng.chance(70) { "sload" } else { "tload" }, "k": k})
             }
-            86..=88 => json!({"op": "create2", "salt": format!("s{}", rng.range(1, 2)), "value": rng.below(2)}),
-            89..=90 => json!({"op": "create", "value": 0}),
+            86..=88 => {
+                if rng.chance(35) {
+                    json!({"op": "create2", "salt": "t1", "value": rng.below(2), "init": "store"})
+                } else {
+                    json!({"op": "create2", "salt": format!("s{}", rng.range(1, 2)), "value": rng.below(2), "init": "plain"})
+                }
+            }
+            89..=90 => json!({"op": "create", "value": 0, "init": *rng.pick(&["plain", "store"])}),
             91..=93 => {
                 let ben = match rng.below(10) {
                     0..=3 => json!(["caller"]),
